@@ -812,12 +812,42 @@ fn big_lookup_held_case(coll: &str, n: usize, order: &str, hint: usize, rng: &mu
     let is_map = coll == "maptree";
     let mut mt = MapTree::<MKey, MVal>::new(hint);
     let mut st = SetTree::<SKey, SVal>::new(hint);
+    // C17 across arena growth: handles taken while the tree is small (1,000 / 30,000 entries) are
+    // re-checked at every doubling of the population, i.e. across every growth step of the arena
+    let mut early: Vec<(i32, u32)> = Vec::new();
+    let mut next_check = 2000usize;
     for (i, &k) in keys.iter().enumerate() {
         ctx::set(n as u64, i as u64);
         if is_map {
             mt.insert(MKey(4 * k + 1), MVal::new(4 * k + 1, k as u64 + 1));
         } else {
             st.insert(SVal::new(4 * k + 1, k as u64 + 1));
+        }
+        if held && (i + 1 == 1000 || i + 1 == 30_000) {
+            for &kk in keys[..=i].iter().rev().take(300).chain(keys[..=i].iter().take(300)) {
+                let key = 4 * kk + 1;
+                let h = if is_map { mt.first_index_less(MKey(key)) } else { st.first_index_less(&SKey(key)) };
+                if h != i_tree::EMPTY_REF {
+                    early.push((key, h));
+                }
+            }
+            rep.counters.add("handles_taken", early.len() as u64);
+        }
+        if held && (i + 1 == next_check || i + 1 == n) && !early.is_empty() {
+            next_check *= 2;
+            rep.counters.inc("growth_checkpoints_with_held_handles");
+            for &(key, h) in &early {
+                rep.evaluations += 1;
+                rep.counters.inc("held_handles_rechecked");
+                let gk = if is_map { mt.value_by_index(h).key_copy } else { st.value_by_index(h).key.0 };
+                let h2 = if is_map { mt.first_index_less(MKey(key)) } else { st.first_index_less(&SKey(key)) };
+                if gk != key {
+                    return Err(Fail::new("held-handle:designates-other-entry", format!("n={} after {} insertions: handle {} taken for key {} now designates key {}", n, i + 1, h, key, gk)));
+                }
+                if h2 != h {
+                    return Err(Fail::new("held-handle:key-moved", format!("n={} after {} insertions: key {} was behind handle {}, first_index_less now returns {}", n, i + 1, key, h, h2 as i32)));
+                }
+            }
         }
     }
     let get = |mt: &MapTree<MKey, MVal>, st: &SetTree<SKey, SVal>, key: i32| -> Option<(i32, u64, bool)> {
